@@ -10,7 +10,7 @@ PROP = {'areas': [{'area': 'engine',
                        'corpus/engine/d9_connack_before_connect_flushed.script'],
             'extra': ['100'],
             'only_prop': 'C08',
-            'quick': 4000,
+            'quick': 12000,
             'thorough': 2000000,
             'tie_fields': ['nst', 'out', 'pwc', 'cur', 'hq', 'uq', 'rq', 'tmo', 'pingto', 'nping', 'connackto', 'st']}],
  'coq_target': 'Properties/C08.vo',
